@@ -62,34 +62,6 @@ def d1(chk, prog):
                                              "bins were filtered out is no longer covered from its first bin"))
     chk.floor("functions scanned for lost writes", n, 20)
     chk.ok("lost-write", f"{n} functions of cnvlib.segmentation scanned", cells=n)
-    # positive must-flow
-    fi = prog.fn(TF)
-    par = parents(fi.node)
-    chk.rule("endpoint-flow", "transfer_fields: value of cnarr.start.iat[0] must reach a store into column 'start' of segments(.data); cnarr.end.iat[-1] into 'end'")
-    lost = {id(st) for st, _, _ in pdrules.lost_writes(prog, fi)}
-    for col, pos in (("start", "0"), ("end", "-1")):
-        src_names = set()
-        for nm, v in [(t.id, s.value) for s in own_nodes(fi.node) if isinstance(s, ast.Assign) for t in s.targets if isinstance(t, ast.Name)]:
-            if norm(v) == f"cnarr.{col}.iat[{pos}]" or norm(v) == f"cnarr['{col}'].iat[{pos}]" or norm(v) == f"cnarr.data['{col}'].iat[{pos}]" or norm(v) == f"cnarr.data.{col}.iat[{pos}]":
-                src_names.add(nm)
-        if not src_names:
-            raise AnalysisError(f"{TF}: no local bound to cnarr.{col}.iat[{pos}] (anchor vanished)")
-        ok = False
-        for st in own_nodes(fi.node):
-            if isinstance(st, ast.Assign) and id(st) not in lost and (set(x.id for x in ast.walk(st.value) if isinstance(x, ast.Name)) & src_names):
-                for t in st.targets:
-                    if isinstance(t, ast.Subscript) and norm(t).startswith("segments") and f"'{col}'" in norm(t):
-                        if _selects_end(t, first=(pos == "0")):
-                            ok = True
-        chk.decide(ok, "endpoint-flow", f"{'first' if pos == '0' else 'last'} bin {col} -> segments column `{col}`", f"{TF}::{col} stretch", fi.loc(),
-                   f"no effective store of cnarr.{col}.iat[{pos}] into the {'first' if pos == '0' else 'last'} row of the segments' `{col}` column: the "
-                   f"{'first' if pos == '0' else 'last'} segment of an arm does not reach the arm's {'first' if pos == '0' else 'last'} input bin when edge bins were filtered")
-
-
-def _selects_end(t, first):
-    """does the subscript target address the first (resp. last) row?"""
-    txt = norm(t)
-    return ("[0," in txt or "[0]" in txt or ".index[0]" in txt) if first else ("[-1," in txt or "[-1]" in txt or ".index[-1]" in txt)
 
 
 def d2(chk, prog):
